@@ -532,7 +532,11 @@ def from_xsd(value: str, type_: Type[AnyXSDType]) -> AnyXSDType:  # workaround. 
     """
     if type_ is Boolean:
         return _parse_xsd_bool(value)
-    elif issubclass(type_, (int, float, str)):
+    elif issubclass(type_, int):
+        if not INTEGER_RE.match(value):
+            raise ValueError("Value is not a valid XSD integer string")
+        return type_(value)
+    elif issubclass(type_, (float, str)):
         return type_(value)
     elif type_ is decimal.Decimal:
         try:
@@ -569,6 +573,8 @@ def from_xsd(value: str, type_: Type[AnyXSDType]) -> AnyXSDType:  # workaround. 
     raise ValueError("{} is not a valid simple built-in XSD type".format(type_.__name__))
 
 
+# Leading and trailing XSD whitespace (space, tab, LF, CR) is removed by the whiteSpace facet 'collapse' of these types
+INTEGER_RE = re.compile(r'^[ \t\n\r]*[+\-]?[0-9]+[ \t\n\r]*$')
 DURATION_RE = re.compile(r'^(-?)P(\d+Y)?(\d+M)?(\d+D)?(T(\d+H)?(\d+M)?((\d+)(\.\d+)?S)?)?$')
 DATETIME_RE = re.compile(r'^(-?)(\d\d\d\d)-(\d\d)-(\d\d)T(\d\d):(\d\d):(\d\d)(\.\d+)?([+\-](\d\d):(\d\d)|Z)?$')
 TIME_RE = re.compile(r'^(\d\d):(\d\d):(\d\d)(\.\d+)?([+\-](\d\d):(\d\d)|Z)?$')
